@@ -59,6 +59,8 @@ def _digest_any(o):
         return ('aper', _aper_digest(o))
     if hasattr(o, 'param_names'):
         return ('model', _model_digest(o))
+    if name == 'SkyCoord':
+        return buffer_digest(np.array([o.ra.deg, o.dec.deg]))
     return buffer_digest(o)
 
 
@@ -212,10 +214,11 @@ class InputsMachine(Machine):
              'detect_threshold', 'detect_sources', 'deblend', 'sourcefinder',
              'catalog_new', 'profile_new', 'psfphot_new', 'make_model_image',
              'model_eval', 'grouper', 'total_error', 'data_properties',
-             'gini', 'cutout', 'ellipse', 'actor_read', 'actor_read',
+             'gini', 'cutout', 'ellipse', 'fit_gaussian', 'extract_stars',
+             'segm_reads', 'sky_apertures', 'actor_read', 'actor_read',
              'actor_read']
     WEIGHTS = [3, 2, 3, 3, 1, 4, 2, 2, 4, 2, 2, 1, 1, 3, 3, 3, 2, 1, 1, 1, 2,
-               1, 1, 0.3, 4, 4, 4]
+               1, 1, 0.3, 2, 1.5, 1.5, 1.5, 4, 4, 4]
 
     def next_op(self, rng, st):
         if st.nsteps >= rng.randint(3, 9) and st.nsteps >= 3:
@@ -292,7 +295,8 @@ class InputsMachine(Machine):
                 'none' if out is None else 'ok')
         if isinstance(out, Raised) and not st.fault_fired:
             st.stats.fault('natural_raise')
-        st.trace.add('step', name, kind)
+        st.trace.add('step', name, kind, digest(out) if kind == 'ok'
+                     and not hasattr(out, '__dict__') else '')
         st.stats.sig(f'{name}|{op["data"]}|{kind}')
         self._check_pool(st, f'{name} data={op["data"]} mask='
                          f'{op["use_mask"]} error={op["use_error"]} '
@@ -596,6 +600,78 @@ class InputsMachine(Machine):
                                 3.0, 0.1, 0.3)
             return Ellipse(data, g).fit_image(maxsma=6.0, minsma=2.0,
                                               step=0.4)
+        return self._run(st, op, fn)
+
+    def _s_fit_gaussian(self, st, op, data, mask, error):
+        from photutils.psf import fit_2dgaussian, fit_fwhm
+        P = st.P
+        v = op['variant']
+        xy = np.column_stack([P['xpos'], P['ypos']])
+        if v % 2:
+            return self._run(st, op, lambda: fit_fwhm(
+                data, xypos=xy, fit_shape=7, mask=mask, error=error))
+
+        def fn():
+            return fit_2dgaussian(data, xypos=xy, fit_shape=7, mask=mask,
+                                  error=error, fix_fwhm=v < 4).results
+        return self._run(st, op, fn)
+
+    def _s_extract_stars(self, st, op, data, mask, error):
+        from astropy.nddata import NDData
+        from astropy.table import Table
+        from photutils.psf import extract_stars
+        P = st.P
+        src = P['nddata'] if op['variant'] % 2 else None
+        tbl = Table()
+        tbl['x'] = P['xpos']
+        tbl['y'] = P['ypos']
+        st.P.setdefault('stars_tbl', tbl)
+        if 'stars_tbl' not in st.d0:
+            st.d0['stars_tbl'] = _digest_any(tbl)
+
+        def fn():
+            nd = src if src is not None else NDData(
+                data if op['data'] not in ('ma', 'ma0') else P['nd'])
+            stars = extract_stars(nd, st.P['stars_tbl'], size=9)
+            return [s.data.sum() for s in stars.all_stars], \
+                stars.cutout_center_flat
+        return self._run(st, op, fn)
+
+    def _s_segm_reads(self, st, op, data, mask, error):
+        P = st.P
+        seg = P['segm']
+        v = op['variant']
+
+        def fn():
+            out = [seg.make_source_mask(size=3 if v % 2 else None),
+                   seg.areas, seg.bbox, len(seg.segments)]
+            c = seg.copy()
+            c.remove_border_labels(2, relabel=True)
+            s0 = seg.segments[0]
+            out.append(s0.make_cutout(data, masked_array=bool(v % 2)))
+            out.append(seg[2:20, 3:25].nlabels)
+            return out
+        return self._run(st, op, fn)
+
+    def _s_sky_apertures(self, st, op, data, mask, error):
+        import astropy.units as u
+        from photutils.aperture import (ApertureStats, SkyCircularAperture,
+                                        aperture_photometry)
+        from simphot.machines.catalog import _wcs
+        P = st.P
+        w = _wcs((30, 32))
+        sky = w.pixel_to_world(P['xpos'], P['ypos'])
+        if 'sky' not in P:
+            P['sky'] = sky
+            st.d0['sky'] = _digest_any(sky)
+        aper = SkyCircularAperture(P['sky'], r=2.0 * u.arcsec)
+
+        def fn():
+            if op['variant'] % 2:
+                return aperture_photometry(data, aper, wcs=w, error=error,
+                                           mask=mask)
+            return ApertureStats(data, aper, wcs=w, error=error,
+                                 mask=mask).to_table()
         return self._run(st, op, fn)
 
     # lazily evaluated properties / later calls of retained objects
